@@ -512,3 +512,61 @@ def c02_f(ctx):
             match(v, pattern('_s if _s is not None else random_seed()')) is not None
     ctx.check(ok, init, 'seed stored unchanged', 'self._seed = seed unless seed is None',
               'the given seed is not stored unchanged', fn=init, node=sd[0] if sd else init.node)
+
+
+@obligation('C02-g', 'T2 T14', 'executor and sub-seed caches belong to one computation context',
+            floor=4, necessary='a cache shared between contexts hands one model\'s execution '
+                               'order or one seed\'s generator state to another run')
+def c02_g(ctx):
+    cc = ctx.cls('elfi.model.elfi_model:ComputationContext')
+    init = ctx.own_method(cc, '__init__')
+    ex = ctx.ex(init)
+    st = [s for (s, t, k) in ctx.stores(init, 'self.caches') if isinstance(s, ast.Assign)]
+    ok = len(st) == 1 and cfg_of(init).must_pass([ctx.node(init, st[0])])
+    if ok:
+        v = ex.term(st[0].value)
+        ok = v[0] == 'dict' and dict((k[1], val) for (k, val) in v[1] if k[0] == 'const') == \
+            {'executor': ('dict', ()), 'sub_seed': ('dict', ())}
+    ctx.check(ok, init, 'fresh caches per context',
+              "self.caches = {'executor': {}, 'sub_seed': {}} in __init__",
+              'the caches of a context are not fresh empty dicts created in its constructor',
+              fn=init, node=st[0] if st else init.node)
+    ctx.check('caches' not in cc.class_assigns, cc.qname, 'no class-level cache',
+              'caches is an instance attribute', 'caches is defined at class level and therefore '
+              'shared by all contexts')
+    # writers of .caches anywhere else
+    others = []
+    for f in ctx.repo.all_functions():
+        for n in own_nodes(f.node):
+            if isinstance(n, ast.Attribute) and n.attr == 'caches' and isinstance(n.ctx, ast.Store) \
+                    and not (f.cls is cc and f.name == '__init__'):
+                others.append((f, n))
+    ctx.check(not others, cc.qname + '.caches', 'caches bound only by the constructor', '',
+              'caches is rebound in {}'.format([f.qname for (f, n) in others]),
+              fn=others[0][0] if others else init, node=others[0][1] if others else init.node)
+    # the loaders take the caches from the context they were given
+    rl = ctx.fn('elfi.loader:RandomStateLoader.load')
+    exr = ctx.ex(rl)
+    gs = ctx.calls(rl, 'get_sub_seed(*_)')
+    ok = bool(gs) and all(
+        dict((k.arg, exr.term(k.value)) for k in c.keywords).get('cache') in
+        (pattern_term("context.caches['sub_seed']"),) or
+        match(dict((k.arg, exr.term(k.value)) for k in c.keywords).get('cache', ('const', 0)),
+              pattern("context.caches.get('sub_seed', None)")) is not None for c in gs)
+    ctx.check(ok, rl, 'sub-seed cache of the same context', "cache=context.caches['sub_seed']",
+              'the sub-seed cache does not come from the context whose seed is used', fn=rl,
+              node=gs[0] if gs else rl.node)
+    ld = ctx.fn('elfi.client:ClientBase.load_data')
+    exl = ctx.ex(ld)
+    st = [s for (s, t, k) in ctx.stores(ld, "_.graph['_executor_cache']") if isinstance(s, ast.Assign)]
+    ok = bool(st) and exl.term(st[0].value) == pattern_term("context.caches['executor']")
+    ctx.check(ok, ld, 'executor cache of the same context',
+              "loaded_net.graph['_executor_cache'] = context.caches['executor']",
+              'the executor cache does not come from the context', fn=ld,
+              node=st[0] if st else ld.node)
+    gsf = ctx.fn('elfi.utils:get_sub_seed')
+    dflt = dict(zip([a.arg for a in gsf.node.args.args][-len(gsf.node.args.defaults):],
+                    gsf.node.args.defaults))
+    ok = 'cache' in dflt and isinstance(dflt['cache'], ast.Constant) and dflt['cache'].value is None
+    ctx.check(ok, gsf, 'no shared default cache', 'cache=None', 'get_sub_seed has a mutable default '
+              'cache shared by all callers', fn=gsf, node=gsf.node)
